@@ -285,6 +285,6 @@ MANIFEST = {
     "text": "Inductive invariant + per-operation post-conditions of the real PluginManager code, checked from every registry state of up to 3 plug-ins for every operation/argument of a "
             "finite alphabet, with the plug-ins' is_supported / allows_discovery answers symbolic (z3 decides every support relation at once); holds for histories of any length by "
             "induction, but is bounded in the name alphabet and registry size because strings are concrete in the engine.",
-    "note": "strings concrete (finite alphabet of names/methods incl. case variants, slashes, unknown plug-ins); registries <= 3 plug-ins; _from_entry_points stubbed (importlib.metadata not under contract)",
+    "note": "strings concrete (finite alphabet of names/methods incl. case variants, slashes, unknown plug-ins); registries <= 3 (thorough: 4) plug-ins; _from_entry_points stubbed (importlib.metadata not under contract)",
     "technique": "contract-based verification of the real source: representation invariant + per-operation post-conditions by symbolic execution (symbolic plug-in answers) with z3, exhaustive over bounded states/arguments",
 }
